@@ -461,7 +461,7 @@ func chunkUploader(ctx context.Context,
 	return func() error {
 		return backoff.Retry(func() error {
 			indexFile := model.ReverseIndexFile(chunkIndex)
-			dbReader := newDBReader(ctx, db, indexTime, logger, chunkSize)
+			dbReader := newDBReader(ctx, db, indexTime, logger, chunkSize, fmt.Sprintf("X%d", chunkIndex))
 			defer func() {
 				_ = dbReader.Close()
 			}()
@@ -1052,15 +1052,23 @@ type dbReader struct {
 	logger    *zap.Logger
 	partial   []byte
 	maxKeys   uint64
+	mark      []byte // value stamped on the keys streamed by this reader
+	remark    bool   // keys already stamped with this very mark are streamed again (retry of the same chunk)
 }
 
-func newDBReader(ctx context.Context, db kvStore, indexTime time.Time, logger *zap.Logger, maxKeys uint64) *dbReader {
+// newDBReader builds a reader of the keys not yet uploaded. An optional mark identifies the chunk being uploaded:
+// keys stamped with that same mark by a failed attempt are not skipped when the upload of that chunk is retried.
+func newDBReader(ctx context.Context, db kvStore, indexTime time.Time, logger *zap.Logger, maxKeys uint64, mark ...string) *dbReader {
 	r := &dbReader{
 		db:        db,
 		indexTime: indexTime,
 		out:       make(chan []byte, 1024),
 		logger:    logger,
 		maxKeys:   maxKeys,
+		mark:      []byte("X"),
+	}
+	if len(mark) > 0 && mark[0] != "" {
+		r.mark, r.remark = []byte(mark[0]), true
 	}
 
 	g, gctx := errgroup.WithContext(ctx)
@@ -1094,7 +1102,7 @@ func (r *dbReader) iterateKV(ctx context.Context, db kvStore) func() error {
 				return fmt.Errorf("failed to fetch KV value [%s]: %w", key, err)
 			}
 
-			if len(val) > 0 {
+			if len(val) > 0 && !(r.remark && bytes.Equal(val, r.mark)) {
 				// key has been marked as already uploaded: skip
 				skipped++
 
@@ -1156,7 +1164,7 @@ func (r *dbReader) Read(p []byte) (int, error) {
 			b = append(b, '\n') // add newline to separate keys
 
 			// mark key as read in the DB
-			if err := r.db.Set(key, []byte("X")); err != nil {
+			if err := r.db.Set(key, r.mark); err != nil {
 				return 0, fmt.Errorf("failed to mark KV key as read: %w", err)
 			}
 
